@@ -132,10 +132,10 @@ def handlers : List (String × Handler) := [
     let accs ← (← getArr j "accesses").toList.mapM (fun a => do
       let p ← a.getArr?
       match p.toList with
-      | [_] => pure Access.whole
-      | [_, k] => pure (Access.nth (← k.getInt?))
-      | _ => throw "access needs 1 or 2 entries")
-    let res := runHistory g (ctOf (← getStr j "ct")) accs
+      | [_, ct] => pure (Access.whole (ctOf (← ct.getStr?)))
+      | [_, k, ct] => pure (Access.nth (← k.getInt?) (ctOf (← ct.getStr?)))
+      | _ => throw "access needs 2 or 3 entries")
+    let res := runHistory g accs
     let f := fun (r : Except ErrKind (Obs Int)) => match r with
       | .error e => Json.arr #[Json.str "err", Json.str e.toString]
       | .ok (.whole gd) => Json.arr #[Json.str "ok", gdataToJson gd]
